@@ -958,6 +958,46 @@ fn directed(t: &mut Trace, rng: &mut Rng) {
     s.remove_topic(t, 0, 7);
     s.verify_op(t, 12); // nothing required: the identity contract is never asked
 
+    // (1z) revocation is per (identity, topic, data): byte-identical data under two topics and two
+    // identities of one issuer, revoked and un-revoked independently of each other
+    {
+        t.seq("directed revocation is per identity, topic and data");
+        let mut s = Sim::new();
+        setup_basic(&mut s, t);
+        s.add_topic(t, 0, 1);
+        s.add_topic(t, 0, 2);
+        s.add_issuer(t, 0, 4, &[1, 2]);
+        let sch = s.keys[0].scheme();
+        s.allow_key(t, 4, 1, sch, 0, 1);
+        s.allow_key(t, 4, 1, sch, 0, 2);
+        let a1 = s.good_claim(4, 8, 1, 1, TS0 + 1000, b"same", rng);
+        let a2 = s.good_claim(4, 8, 2, 1, TS0 + 1000, b"same", rng);
+        let b1 = s.good_claim(4, 9, 1, 1, TS0 + 1000, b"same", rng);
+        let d0 = a1.data.clone();
+        for (d, c) in [(8usize, &a1), (8, &a2), (9, &b1)] {
+            s.valid(t, d, c);
+            s.add_claim(t, d, c);
+        }
+        s.verify_op(t, 11);
+        s.revoke(t, 4, 8, 1, &d0, true); // only (8, topic 1)
+        for (d, c) in [(8usize, &a1), (8, &a2), (9, &b1)] {
+            s.valid(t, d, c);
+        }
+        s.revoke(t, 4, 8, 2, &d0, true);
+        s.revoke(t, 4, 9, 1, &d0, true);
+        s.revoke(t, 4, 8, 1, &d0, false); // un-revoke only (8, topic 1): the other two stay revoked
+        for (d, c) in [(8usize, &a1), (8, &a2), (9, &b1)] {
+            s.valid(t, d, c);
+        }
+        s.verify_op(t, 11);
+        s.verify_op(t, 12);
+        s.revoke(t, 4, 8, 2, &d0, false);
+        for (d, c) in [(8usize, &a1), (8, &a2), (9, &b1)] {
+            s.valid(t, d, c);
+        }
+        s.verify_op(t, 11);
+    }
+
     // (2) one issuer, one claim per scheme, every way to lose validity
     for (k, topic) in [(1u32, 1u32), (3, 2), (5, 7)] {
         t.seq(&format!("directed lifecycle key={} topic={}", k, topic));
